@@ -155,6 +155,18 @@ class Ctx:
         real = [o for o in self.obligations if not o["probe"]]
         probes = [o for o in self.obligations if o["probe"]]
         discharged = [o for o in real if o["status"] == "unsat"]
+        # one report per named obligation: the same clause failing on several paths of a function is
+        # one violation (the confirmed instance, if any, is the one kept)
+        grouped = {}
+        for v in self.violations:
+            base = re.sub(r"\s*\[path [TF-]+\]", "", v["obligation"])
+            cur = grouped.get(base)
+            if cur is None or (v["confirmed"] and not cur["confirmed"]):
+                v = dict(v, paths=1 + (cur["paths"] if cur else 0))
+                grouped[base] = v
+            else:
+                cur["paths"] = cur.get("paths", 1) + 1
+        self.violations = list(grouped.values())
         # known findings
         reported = []
         for v in self.violations:
